@@ -170,8 +170,14 @@ def check_dispatch(idx: Index, rep: Report):
         rep.decide(k in handled, rule, g, g.node, text=f"get_mapped_vector handles {k}", what="every mapping accepted by get_vector is encoded (none falls through to None)",
                    reason=f"{k} passes the membership test of get_vector but has no branch in get_mapped_vector")
     gv = idx.function(f"{SV}::get_vector")
-    ok = any(isinstance(n, ast.If) and norm(n.test) == "mapping.upper() not in available_mappings" and isinstance(n.body[0], ast.Raise) for n in own_nodes(gv.node))
-    rep.decide(ok, rule, gv, gv.node, text="unknown mapping refused (case-insensitive)", what="an unknown mapping name is an error", reason="membership guard changed")
+    from ..rules.guards import decide_refusals
+    base = {"n_spinorbitals": 4, "n_electrons": 2, "up_then_down": False, "spin": None}
+    cases = []
+    for k in sorted(adv):
+        for sp_ in sorted({k.lower(), k.upper(), k.capitalize()}):
+            cases.append((f"mapping '{sp_}'", dict(base, mapping=sp_), False))
+    cases.append(("mapping 'XYZ'", dict(base, mapping="XYZ"), True))
+    decide_refusals(idx, rep, rule, gv, cases, what="every advertised mapping name is accepted in any letter case, anything else is an error")
     extra = handled - adv
     if extra:
         rep.info(rule, g, g.node, text=f"branches for {sorted(extra)} not advertised", reason="handled but not in available_mappings")
